@@ -105,6 +105,11 @@ fn new_deps(tables: &Rc<RefCell<Tables>>) -> Deps {
                     // "Rx": the marker's access list grants every permission (1..=7) to every account of the attribute
                     // table and to the well-known names; the contract is meant to take roles from its configuration only
                     let mut access_control = vec![];
+                    let mut manager = String::new();
+                    if required_attributes.first().map(|x| x == "\u{1}manager").unwrap_or(false) {
+                        required_attributes.clear();
+                        manager = "manager".to_string();
+                    }
                     if required_attributes.first().map(|x| x == "\u{1}grants").unwrap_or(false) {
                         required_attributes.clear();
                         let mut names: Vec<String> = t.borrow().attrs.keys().cloned().collect();
@@ -124,7 +129,7 @@ fn new_deps(tables: &Rc<RefCell<Tables>>) -> Deps {
                             account_number: 1,
                             sequence: 0,
                         }),
-                        manager: "".into(),
+                        manager,
                         access_control,
                         status,
                         denom: req.id.clone(),
@@ -244,6 +249,8 @@ fn parse_env(t: &mut Toks) -> PResult<Tables> {
                 "Ud" => (1, 5, vec![]),
                 "E" => (-1, 0, vec![]),            // the marker query itself fails
                 "Rx" => (2, 3, vec!["\u{1}grants".to_string()]),   // restricted, access list naming every account
+                "Rm" => (2, 3, vec!["\u{1}manager".to_string()]),   // restricted, manager field set
+                "Um" => (1, 3, vec!["\u{1}manager".to_string()]),
                 "Z" => (0, 3, vec![]),             // marker of type 0 (MARKER_TYPE_UNSPECIFIED): not restricted
                 "T" => (3, 3, vec![]),             // marker of a type number the enum does not name: not restricted
                 _ => return Err(Malformed),
@@ -319,7 +326,10 @@ fn parse_events(tok: &str, base_denom: &str, quote_denom: &str, price: &str) -> 
     let mut out = vec![];
     for item in tok.split(';') {
         let p: Vec<&str> = item.split(':').collect();
-        let action = match (p[0], p.len()) {
+        // a lower-case letter: the same event, logged with a block height far above any call's (the contract reads amounts only)
+        let late = p[0].chars().all(|ch| ch.is_ascii_lowercase());
+        let upper = p[0].to_ascii_uppercase();
+        let action = match (upper.as_str(), p.len()) {
             ("F", 4) => Action::Fill {
                 base: c(p[1], base_denom)?,
                 fee: fee(p[3])?,
@@ -334,7 +344,11 @@ fn parse_events(tok: &str, base_denom: &str, quote_denom: &str, price: &str) -> 
             },
             _ => return Err(Malformed),
         };
-        out.push(Event { action, block_info: BlockInfo::default() });
+        let mut block_info = BlockInfo::default();
+        if late {
+            block_info.height = u64::MAX / 2;
+        }
+        out.push(Event { action, block_info });
     }
     Ok(out)
 }
@@ -401,15 +415,21 @@ fn parse_migrate_msg(t: &mut Toks) -> PResult<MigrateMsg> {
     Ok(msg)
 }
 
+thread_local! {
+    static INST_EXTRA: std::cell::Cell<bool> = std::cell::Cell::new(false);
+}
+
 fn parse_event(line: &str) -> PResult<Ev> {
     let mut t = Toks::new(line);
     let word = t.next()?;
     let ev = match word {
         "H" => Ev::NewHistory,
         "ENV" => Ev::Env(parse_env(&mut t)?),
-        "INST" | "INSTF" => {
+        "INST" | "INSTF" | "INSTX" => {
             // INSTF <coins> <INST fields>: the same instantiate call with funds attached (the contract ignores them)
+            // INSTX <INST fields>: the same message sent as JSON with one more member than the struct declares
             let funds = if word == "INSTF" { t.coins()? } else { vec![] };
+            INST_EXTRA.with(|x| x.set(word == "INSTX"));
             let sender = t.string()?;
             let msg = InstantiateMsg {
                 name: t.string()?,
@@ -874,7 +894,12 @@ impl<W: Write> Runner<W> {
             Ev::Inst { sender, funds, msg } => {
                 let before = snapshot(&self.deps.storage);
                 let r = self.guarded(|deps| {
-                    let bytes = to_vec(&msg).map_err(|e| e.to_string())?;
+                    let mut bytes = to_vec(&msg).map_err(|e| e.to_string())?;
+                    if INST_EXTRA.with(|x| x.get()) {
+                        let mut raw = b"{\"bind_name\":\"\",".to_vec();
+                        raw.extend_from_slice(&bytes[1..]);
+                        bytes = raw;
+                    }
                     let msg: InstantiateMsg = from_slice(&bytes).map_err(|e| e.to_string())?;
                     let info = MessageInfo { sender: Addr::unchecked(sender), funds };
                     instantiate(deps.as_mut(), env_at(tick), info, msg).map_err(|e| e.to_string())
